@@ -425,3 +425,453 @@ Proof.
       * auto.
     + intros h2 b2 H2. destruct (T _ _ H2) as [b2' [H2' [Ss [Ac _]]]]. exists b2'. auto.
 Qed.
+
+(* ------------------------------------------------------------------ the handler-side steps, one by one *)
+Lemma log_of_nil_ack : forall h, log_of h [OAck] = [].
+Proof. reflexivity. Qed.
+
+Ltac sub_fields b := destruct b as [bconn bid breq bmeth bstate bsinks binfl bperm bunsub bret_d bret].
+
+(* steps that neither send a frame nor touch the table entry *)
+Lemma lo_quiet : forall base meth n h b b' cn t o1,
+  sub_ok base meth n h b' -> same_static b b' ->
+  s_state b' = s_state b -> s_unsubscribed b' = s_unsubscribed b -> s_has_permit b' = s_has_permit b ->
+  (s_sinks b' <> [] -> s_sinks b <> []) ->
+  (ret_pending b' <= ret_pending b \/ s_returned b = false) -> (s_returned b = true -> s_returned b' = true) ->
+  (forall h2, log_of h2 o1 = []) -> (forall h' k x ok, In (OSendResult h' k x ok) o1 -> h' = h) ->
+  local_ok base meth n h b b' cn cn t t o1 [].
+Proof.
+  intros base meth n h b b' cn t o1 Hok Hst Es Eu Ep Hs Hr1 Hr2 Hl Ho.
+  constructor.
+  - exact Hst.
+  - exact Hok.
+  - intro Ha. rewrite Es, Eu. auto.
+  - unfold accepted. rewrite Es. auto.
+  - rewrite app_nil_r. auto.
+  - rewrite Ep. reflexivity.
+  - right. split; [reflexivity|]. unfold akey. destruct Hst as [E1 [E2 _]]. unfold key_of. rewrite Es, Eu, E1, E2. reflexivity.
+  - intros f [].
+  - unfold accepted. rewrite Es. auto.
+  - cbn. split; [|split]; auto.
+    + destruct Hr1; [left; lia | right; auto].
+    + intro. lia.
+  - intro h2. rewrite Hl. destruct (Nat.eqb h2 h); reflexivity.
+  - exact Ho.
+  - rewrite Es, Eu. intros. auto.
+Qed.
+
+(* accept, first half: the response is enqueued *)
+Lemma lo_accept1 : forall base meth n h b cn t,
+  sub_ok base meth n h b -> s_state b = SPending ->
+  local_ok base meth n h b (sb_state SAccepting b) cn (c_enq (FSubOk (s_req b) (s_id b)) cn) t t [OAck] [FSubOk (s_req b) (s_id b)].
+Proof.
+  intros base meth n h b cn t Hok Hp.
+  assert (Hok' : sub_ok base meth n h (sb_state SAccepting b)).
+  { sub_fields b. unfold sub_ok, live in *. cbn in *. subst. intuition (try congruence; try discriminate). }
+  constructor.
+  - repeat split.
+  - exact Hok'.
+  - intro Ha. congruence.
+  - intros _. left. reflexivity.
+  - unfold sent, c_enq. cbn. rewrite app_assoc. auto.
+  - reflexivity.
+  - right. split; [reflexivity|]. unfold akey. cbn. rewrite Hp. reflexivity.
+  - intros f [<- | []]. discriminate.
+  - intros _. right. apply in_or_app. right. left. reflexivity.
+  - cbn. split; [left; unfold ret_pending; cbn; lia|]. split; [auto | intro; lia].
+  - intro h2. cbn. destruct (Nat.eqb h2 h); reflexivity.
+  - intros h' k x ok [H | []]. discriminate.
+  - cbn. intros. discriminate.
+Qed.
+
+(* the pending sink goes away unaccepted (failed accept, reject, handler returned without answering): its permit is
+   released, an error response may be enqueued *)
+Definition opt_frames (fo : option frame) (cn : conn) : list frame :=
+  match fo with Some f => if c_open cn then [f] else [] | None => [] end.
+
+Lemma opt_frames_in : forall fo cn f, In f (opt_frames fo cn) -> fo = Some f.
+Proof. intros [g|] cn f; cbn; [destruct (c_open cn)|]; cbn; intros []; congruence || contradiction. Qed.
+
+Lemma push_opt_conn : forall fo cn, c_open (c_push_opt fo cn) = c_open cn /\ c_cap (c_push_opt fo cn) = c_cap cn /\
+  c_permits (c_push_opt fo cn) = c_permits cn /\ sent (c_push_opt fo cn) = sent cn ++ opt_frames fo cn.
+Proof.
+  intros [f|] cn; unfold c_push_opt, c_push, opt_frames, sent, c_enq; cbn.
+  - destruct (c_open cn) eqn:E; cbn; rewrite ?E, ?app_nil_r, ?app_assoc; auto.
+  - rewrite app_nil_r. auto.
+Qed.
+
+Lemma lo_fail : forall base meth n h b cn t x fo o1,
+  sub_ok base meth n h b -> s_state b = SPending -> (x = SRejected \/ x = SDone) ->
+  (forall f, fo = Some f -> is_notif f = false) ->
+  (forall h2, log_of h2 o1 = []) -> (forall h' k y ok, In (OSendResult h' k y ok) o1 -> h' = h) ->
+  local_ok base meth n h b (sb_fail x (s_has_permit b) b) cn (rel_conn (s_has_permit b) (c_push_opt fo cn)) t t o1
+    (opt_frames fo cn).
+Proof.
+  intros base meth n h b cn t x fo o1 Hok Hp Hx Hfo Hl Ho.
+  assert (Hperm : s_has_permit b = true).
+  { destruct Hok as [_ [_ [_ [E _]]]]. rewrite E. unfold live. rewrite Hp. reflexivity. }
+  assert (Hok' : sub_ok base meth n h (sb_fail x (s_has_permit b) b)).
+  { rewrite Hperm. sub_fields b. unfold sub_ok, live, sb_fail, rel_sub in *. cbn in *. subst.
+    destruct Hx; subst; cbn; intuition (try congruence; try discriminate). }
+  assert (Hnn : forall f, In f (opt_frames fo cn) -> is_notif f = false).
+  { intros f Hf. apply Hfo. eapply opt_frames_in. eassumption. }
+  destruct (push_opt_conn fo cn) as [P1 [P2 [P3 P4]]].
+  rewrite Hperm in *.
+  constructor.
+  - unfold sb_fail, rel_sub. repeat split.
+  - exact Hok'.
+  - intro. congruence.
+  - unfold accepted. rewrite Hp. intros [|]; discriminate.
+  - unfold rel_conn, c_give_permit, c_set_permits, sent in *. cbn. auto.
+  - unfold rel_conn, c_give_permit, c_set_permits, sb_fail, rel_sub. cbn. rewrite P3, Hperm. cbn. lia.
+  - right. split; [reflexivity|]. unfold akey, sb_fail, rel_sub. cbn. rewrite Hp. destruct Hx; subst; reflexivity.
+  - intros f Hf Hn. rewrite (Hnn f Hf) in Hn. discriminate.
+  - unfold accepted, sb_fail, rel_sub. cbn. destruct Hx; subst; intros [|]; discriminate.
+  - rewrite (count_closing_zero (s_id b) (opt_frames fo cn)) by (intros f Hf Hn; rewrite (Hnn f Hf) in Hn; discriminate).
+    split; [left; unfold ret_pending, sb_fail, rel_sub; cbn; lia|]. split; [reflexivity | intro; lia].
+  - intro h2. rewrite Hl. destruct (Nat.eqb h2 h); [|reflexivity].
+    symmetry. apply plain_none. intros f Hf Hn. rewrite (Hnn f Hf) in Hn. discriminate.
+  - exact Ho.
+  - unfold sb_fail, rel_sub. cbn. destruct Hx; subst; intros; discriminate.
+Qed.
+
+Lemma key_dec : forall a b : nat * N, {a = b} + {a <> b}.
+Proof. intros. destruct (key_eqb a b) eqn:E; [left; apply key_eqb_eq; assumption | right; intro H; apply key_eqb_eq in H; congruence]. Qed.
+
+(* accept, second half: the entry is inserted, accept() returns the first sink *)
+Lemma lo_accept2 : forall base meth n h b cn t,
+  sub_ok base meth n h b -> s_state b = SAccepting ->
+  local_ok base meth n h b (sb_sinks [0%N] (sb_state SActive b)) cn cn t (key_of b :: t) [OAccept h true] [].
+Proof.
+  intros base meth n h b cn t Hok Hp.
+  assert (Hu : s_unsubscribed b = false).
+  { destruct Hok as [_ [_ [_ [_ [E _]]]]]. apply E. congruence. }
+  assert (Hok' : sub_ok base meth n h (sb_sinks [0%N] (sb_state SActive b))).
+  { sub_fields b. unfold sub_ok, live in *. cbn in *. subst.
+    intuition (try congruence; try discriminate). subst. contradiction. }
+  constructor.
+  - repeat split.
+  - exact Hok'.
+  - intro. congruence.
+  - intros _. right. reflexivity.
+  - rewrite app_nil_r. auto.
+  - reflexivity.
+  - left. intro k. unfold akey. cbn. rewrite Hu. split.
+    + intros [<- | Hk]; [right; reflexivity|]. destruct (key_dec k (key_of b)) as [->|Ne]; [right; reflexivity | left; auto].
+    + intros [[_ Hk] | E]; [right; assumption | left; inversion E; reflexivity].
+  - intros f [].
+  - intros _. left. left. assumption.
+  - cbn. split; [left; unfold ret_pending; cbn; lia|]. split; [auto | intro; lia].
+  - intro h2. cbn. destruct (Nat.eqb h2 h); reflexivity.
+  - intros h' k x ok [H | []]. discriminate.
+  - cbn. rewrite Hu. intros. discriminate.
+Qed.
+
+Lemma sinks_active : forall base meth n h b, sub_ok base meth n h b -> s_sinks b <> [] -> s_state b = SActive.
+Proof.
+  intros base meth n h b Hok Hs. destruct Hok as [_ [_ [_ [_ [E _]]]]].
+  destruct (s_state b) eqn:Es; try reflexivity; exfalso; apply Hs; apply E; discriminate.
+Qed.
+
+(* the repaired drop of one clone *)
+Lemma lo_drop : forall base meth n h b cn t k,
+  sub_ok base meth n h b -> In k (s_sinks b) -> ~ In k (map fst (s_inflight b)) ->
+  let rest := removeN k (s_sinks b) in
+  let last := is_nil rest in
+  let r := last && s_has_permit b in
+  local_ok base meth n h b
+    (rel_sub r (if last then sb_unsub true (sb_sinks [] b) else sb_sinks rest b)) cn (rel_conn r cn) t
+    (if last && negb (s_unsubscribed b) then remove_key (key_of b) t else t) [OAck] [].
+Proof.
+  intros base meth n h b cn t k Hok Hk Hnf rest last r.
+  assert (Ha : s_state b = SActive). { eapply sinks_active; [eassumption|]. intro E. rewrite E in Hk. destruct Hk. }
+  assert (Hperm : s_has_permit b = true).
+  { destruct Hok as [_ [_ [_ [E _]]]]. rewrite E. unfold live. rewrite Ha. destruct (s_sinks b); [destruct Hk | reflexivity]. }
+  assert (Hinf : forall k2 x, In (k2, x) (s_inflight b) -> In k2 rest).
+  { intros k2 x Hin. apply removeN_In. split.
+    - destruct Hok as [_ [_ [_ [_ [_ [E _]]]]]]. eapply E. eassumption.
+    - intro. subst k2. apply Hnf. apply in_map_iff. exists (k, x). auto. }
+  subst last r. destruct rest as [|k0 rest'] eqn:Er; cbn [is_nil andb]; rewrite ?Hperm; cbn [rel_sub rel_conn].
+  - (* last clone *)
+    assert (Hnoinf : s_inflight b = []).
+    { destruct (s_inflight b) as [|[k2 x] l]; [reflexivity|]. destruct (Hinf k2 x (or_introl eq_refl)). }
+    assert (Hok' : sub_ok base meth n h (sb_permit false (sb_unsub true (sb_sinks [] b)))).
+    { sub_fields b. unfold sub_ok, live in *. cbn in *. subst. intuition (try congruence; try discriminate). }
+    constructor.
+    + repeat split.
+    + exact Hok'.
+    + intros _. cbn. auto.
+    + intros _. right. assumption.
+    + unfold c_give_permit, c_set_permits, sent. cbn. rewrite app_nil_r. auto.
+    + unfold c_give_permit, c_set_permits. cbn. rewrite Hperm. cbn. lia.
+    + destruct (s_unsubscribed b) eqn:Eu; cbn [negb].
+      * right. split; [reflexivity|]. unfold akey. cbn. rewrite Ha, Eu. reflexivity.
+      * left. intro k1. rewrite remove_key_In. unfold akey. cbn. rewrite Ha. split.
+        -- intros [A B]. left. auto.
+        -- intros [[A B] | E]; [auto | discriminate].
+    + intros f [].
+    + intros _. left. right. assumption.
+    + cbn. split; [left; unfold ret_pending; cbn; lia|]. split; [auto | intro; lia].
+    + intro h2. cbn. destruct (Nat.eqb h2 h); reflexivity.
+    + intros h' k1 x ok [H | []]. discriminate.
+    + cbn. intros _ _ F. exfalso. apply F. reflexivity.
+  - (* other clones remain *)
+    apply lo_quiet.
+    + sub_fields b. unfold sub_ok, live in *. cbn in *. subst. intuition (try congruence; try discriminate; eauto).
+    + repeat split.
+    + reflexivity.
+    + reflexivity.
+    + reflexivity.
+    + cbn. intros _ E. rewrite E in Hk. destruct Hk.
+    + left. reflexivity.
+    + auto.
+    + reflexivity.
+    + intros h' k1 x ok [H | []]. discriminate.
+Qed.
+
+Lemma Nat_eqb_sym' : forall a b, Nat.eqb a b = Nat.eqb b a.
+Proof. intros. destruct (Nat.eqb_spec a b), (Nat.eqb_spec b a); congruence. Qed.
+
+(* send, second half: the message built from the sink's own id and method is handed to the connection *)
+Lemma lo_send_enq : forall base meth n h b cn t k x,
+  sub_ok base meth n h b -> inflight_of k (s_inflight b) = Some x ->
+  (accepted b -> In (FSubOk (s_req b) (s_id b)) (sent cn)) ->
+  local_ok base meth n h b (sb_inflight (remove_inflight k (s_inflight b)) b) cn
+    (c_push (FNotif (s_meth b) (s_id b) x false) cn) t t [OSendResult h k x (c_open cn)]
+    (opt_frames (Some (FNotif (s_meth b) (s_id b) x false)) cn).
+Proof.
+  intros base meth n h b cn t k x Hok Hin Hacc.
+  apply inflight_of_In in Hin.
+  assert (Hk : In k (s_sinks b)). { destruct Hok as [_ [_ [_ [_ [_ [E _]]]]]]. eapply E. eassumption. }
+  assert (Ha : s_state b = SActive). { eapply sinks_active; [eassumption|]. intro E. rewrite E in Hk. destruct Hk. }
+  assert (Hok' : sub_ok base meth n h (sb_inflight (remove_inflight k (s_inflight b)) b)).
+  { sub_fields b. unfold sub_ok, live in *. cbn in *. subst. intuition (try congruence; try discriminate).
+    match goal with H : In _ (filter _ _) |- _ => apply filter_In in H; destruct H end. eauto. }
+  destruct (push_opt_conn (Some (FNotif (s_meth b) (s_id b) x false)) cn) as [P1 [P2 [P3 P4]]]. cbn [c_push_opt] in *.
+  constructor.
+  - repeat split.
+  - exact Hok'.
+  - intros _. cbn. auto.
+  - auto.
+  - auto.
+  - rewrite P3. reflexivity.
+  - right. split; reflexivity.
+  - intros f Hf _. apply opt_frames_in in Hf. inversion Hf; subst f. cbn. repeat split; auto. apply Hacc. right. assumption.
+  - intro. left. assumption.
+  - assert (Z : count_closing (s_id b) (opt_frames (Some (FNotif (s_meth b) (s_id b) x false)) cn) = 0).
+    { unfold opt_frames. destruct (c_open cn); reflexivity. }
+    rewrite Z. split; [left; unfold ret_pending; cbn; lia|]. split; [auto | intro; lia].
+  - intro h2. unfold opt_frames. destruct (c_open cn); cbn.
+    + rewrite (Nat_eqb_sym' h h2). destruct (Nat.eqb h2 h); [|reflexivity]. rewrite N.eqb_refl. reflexivity.
+    + destruct (Nat.eqb h2 h); reflexivity.
+  - intros h' k1 y ok [H | []]. inversion H. reflexivity.
+  - cbn. auto.
+Qed.
+
+(* the closing notification, sent by the task that awaited the handler *)
+Lemma lo_close_notify : forall base meth n h b cn t v,
+  sub_ok base meth n h b -> s_ret b = Some v ->
+  (accepted b -> In (FSubOk (s_req b) (s_id b)) (sent cn)) ->
+  local_ok base meth n h b (sb_ret None b) cn (c_push_opt (close_frame b v) cn) t t [OAck] (opt_frames (close_frame b v) cn).
+Proof.
+  intros base meth n h b cn t v Hok Hr Hacc.
+  assert (Ha : s_state b = SActive).
+  { destruct Hok as [_ [_ [_ [_ [E _]]]]]. destruct (s_state b) eqn:Es; try reflexivity; destruct E as [_ [_ [E _]]]; try discriminate; congruence. }
+  assert (Hret : s_returned b = true /\ v <> CNone).
+  { destruct Hok as [_ [_ [_ [_ [_ [_ [_ [E _]]]]]]]]. apply E. assumption. }
+  assert (Hok' : sub_ok base meth n h (sb_ret None b)).
+  { sub_fields b. unfold sub_ok, live in *. cbn in *. subst. intuition (try congruence; try discriminate). }
+  assert (Hf : forall f, In f (opt_frames (close_frame b v) cn) ->
+            is_notif f = true /\ is_closing f = true /\ frame_sid f = s_id b /\ frame_meth f = s_meth b /\ plain_item (s_id b) f = None).
+  { intros f Hin. apply opt_frames_in in Hin. destruct v; cbn in Hin; inversion Hin; subst f; cbn; auto. }
+  destruct (push_opt_conn (close_frame b v) cn) as [P1 [P2 [P3 P4]]].
+  constructor.
+  - repeat split.
+  - exact Hok'.
+  - intros _. cbn. auto.
+  - auto.
+  - auto.
+  - rewrite P3. reflexivity.
+  - right. split; reflexivity.
+  - intros f Hin _. destruct (Hf f Hin) as [_ [_ [E1 [E2 _]]]]. repeat split; auto. apply Hacc. right. assumption.
+  - intro. left. assumption.
+  - assert (Z : count_closing (s_id b) (opt_frames (close_frame b v) cn) <= 1).
+    { unfold opt_frames. destruct (close_frame b v); [destruct (c_open cn)|]; unfold count_closing; cbn; try lia.
+      destruct (closing_of (s_id b) f); cbn; lia. }
+    unfold ret_pending at 2. rewrite Hr. cbn [sb_ret ret_pending s_ret s_returned].
+    split; [left; unfold ret_pending; cbn; lia|]. destruct Hret. split; auto.
+  - intro h2. cbn. destruct (Nat.eqb h2 h); [|reflexivity]. symmetry. apply filter_map_none. intros f Hin. apply Hf. assumption.
+  - intros h' k1 y ok [H | []]. discriminate.
+  - cbn. auto.
+Qed.
+
+(* ------------------------------------------------------------------ steps that only touch connections *)
+Definition conn_rel (cn cn' : conn) : Prop :=
+  c_permits cn' = c_permits cn /\ c_cap cn' = c_cap cn /\ (c_open cn' = true -> c_open cn = true) /\
+  exists extra, sent cn' = sent cn ++ extra /\ forall f, In f extra -> is_notif f = false.
+Definition conns_rel (cs cs' : list conn) : Prop :=
+  length cs' = length cs /\ forall c cn cn', nth_error cs c = Some cn -> nth_error cs' c = Some cn' -> conn_rel cn cn'.
+
+Lemma conn_rel_refl : forall cn, conn_rel cn cn.
+Proof. intro cn. repeat split; auto. exists []. rewrite app_nil_r. split; [reflexivity | intros f []]. Qed.
+
+Lemma conns_rel_upd : forall cs c cn fc, nth_error cs c = Some cn -> conn_rel cn (fc cn) -> conns_rel cs (upd c fc cs).
+Proof.
+  intros cs c cn fc Hc R. split; [apply length_upd|].
+  intros c2 cn2 cn2' H2 H2'. destruct (upd_lookup _ _ _ _ _ _ _ Hc H2') as [[-> ->] | [Ne H2'']].
+  - rewrite Hc in H2. inversion H2; subst. assumption.
+  - rewrite H2 in H2''. inversion H2''; subst. apply conn_rel_refl.
+Qed.
+
+Lemma conns_rel_old : forall cs cs' c cn, conns_rel cs cs' -> nth_error cs c = Some cn ->
+  exists cn', nth_error cs' c = Some cn' /\ conn_rel cn cn'.
+Proof.
+  intros cs cs' c cn [Hl R] Hc. destruct (nth_error cs' c) as [cn'|] eqn:E.
+  - exists cn'. split; [reflexivity | eapply R; eassumption].
+  - apply nth_error_None in E. assert (c < length cs) by (apply nth_error_Some; congruence). lia.
+Qed.
+
+Lemma conns_rel_new : forall cs cs' c cn', conns_rel cs cs' -> nth_error cs' c = Some cn' ->
+  exists cn, nth_error cs c = Some cn /\ conn_rel cn cn'.
+Proof.
+  intros cs cs' c cn' [Hl R] Hc. destruct (nth_error cs c) as [cn|] eqn:E.
+  - exists cn. split; [reflexivity | eapply R; eassumption].
+  - apply nth_error_None in E. assert (c < length cs') by (apply nth_error_Some; congruence). lia.
+Qed.
+
+Definition obs_quiet (s : st) (o1 : list obs) : Prop :=
+  (forall h2, log_of h2 o1 = []) /\ (forall h k x ok, In (OSendResult h k x ok) o1 -> h < length (subs s)).
+
+Lemma InvO_quiet : forall s o o1, InvO s o -> obs_quiet s o1 -> InvO s (o ++ o1).
+Proof.
+  intros s o o1 IO [Q1 Q2]. constructor.
+  - intros h b cn Hb Hc. rewrite log_of_app, Q1, app_nil_r. eapply io_fifo; eassumption.
+  - intros h k x ok Hin. apply in_app_or in Hin. destruct Hin; [eapply io_bound; eassumption | eapply Q2; eassumption].
+  - intros h b Hb Ha Hu Hs. destruct (io_unsub s o IO _ _ Hb Ha Hu Hs) as [req Hr]. exists req. apply in_or_app. auto.
+Qed.
+
+Lemma conns_inv : forall s o cs' o1, Inv s -> InvO s o -> conns_rel (conns s) cs' -> obs_quiet s o1 ->
+  Inv (set_conns s cs') /\ InvO (set_conns s cs') (o ++ o1) /\ Mono s (set_conns s cs').
+Proof.
+  intros s o cs' o1 I IO R Q.
+  assert (NN : forall sid extra, (forall f, In f extra -> is_notif f = false) ->
+            count_closing sid extra = 0 /\ filter_map (plain_item sid) extra = []).
+  { intros sid extra Hx. split; [apply count_closing_zero | apply plain_none]; intros f Hf Hn; rewrite (Hx f Hf) in Hn; discriminate. }
+  split; [|split].
+  - constructor; unfold set_conns; cbn [subs conns table id_base notif_meth].
+    + intros h b Hb. destruct R as [Hl _]. rewrite Hl. exact (inv_sub s I _ _ Hb).
+    + exact (inv_table s I).
+    + intros c cn' Hc. destruct (conns_rel_new _ _ _ _ R Hc) as [cn [Hc0 [P1 [P2 _]]]]. rewrite P1, P2.
+      exact (inv_count s I _ _ Hc0).
+    + intros c cn' f Hc Hf Hn. destruct (conns_rel_new _ _ _ _ R Hc) as [cn [Hc0 [_ [_ [_ [extra [E Hx]]]]]]].
+      rewrite E in Hf. apply in_app_or in Hf. destruct Hf as [Hf | Hf]; [|rewrite (Hx f Hf) in Hn; discriminate].
+      exact (inv_frames s I _ _ _ Hc0 Hf Hn).
+    + intros h b Hb Ha. destruct (inv_accepted s I _ _ Hb Ha) as [cn [Hc Hin]].
+      destruct (conns_rel_old _ _ _ _ R Hc) as [cn' [Hc' [_ [_ [_ [extra [E _]]]]]]]. exists cn'. split; [assumption|].
+      rewrite E. apply in_or_app. auto.
+    + intros c cn' Hc. destruct (conns_rel_new _ _ _ _ R Hc) as [cn [Hc0 [_ [_ [_ [extra [E Hx]]]]]]]. rewrite E.
+      apply naa_app; [exact (inv_order s I _ _ Hc0)|]. intros f Hf Hn. rewrite (Hx f Hf) in Hn. discriminate.
+    + intros h b cn' Hb Hc. destruct (conns_rel_new _ _ _ _ R Hc) as [cn [Hc0 [_ [_ [_ [extra [E Hx]]]]]]].
+      rewrite E, count_closing_app. destruct (NN (s_id b) extra Hx) as [Z _]. rewrite Z, Nat.add_0_r.
+      exact (inv_closing s I _ _ _ Hb Hc0).
+  - apply InvO_quiet; [|exact Q]. constructor; unfold set_conns; cbn [subs conns].
+    + intros h b cn' Hb Hc. destruct (conns_rel_new _ _ _ _ R Hc) as [cn [Hc0 [_ [_ [_ [extra [E Hx]]]]]]].
+      rewrite E, filter_map_app. destruct (NN (s_id b) extra Hx) as [_ Z]. rewrite Z, app_nil_r.
+      exact (io_fifo s o IO _ _ _ Hb Hc0).
+    + exact (io_bound s o IO).
+    + exact (io_unsub s o IO).
+  - split.
+    + intro c. unfold conn_open, set_conns. cbn [conns]. destruct (nth_error cs' c) as [cn'|] eqn:Hc; [|discriminate].
+      destruct (conns_rel_new _ _ _ _ R Hc) as [cn [Hc0 [_ [_ [Op _]]]]]. rewrite Hc0. exact Op.
+    + intros h b Hb. exists b. repeat split; auto.
+Qed.
+
+Lemma conn_upd_inv : forall s o c cn fc o1, Inv s -> InvO s o -> nth_error (conns s) c = Some cn -> conn_rel cn (fc cn) ->
+  obs_quiet s o1 -> Inv (upd_conn s c fc) /\ InvO (upd_conn s c fc) (o ++ o1) /\ Mono s (upd_conn s c fc).
+Proof. intros. unfold upd_conn. apply conns_inv; auto. eapply conns_rel_upd; eassumption. Qed.
+
+(* ------------------------------------------------------------------ an admitted subscribe call *)
+Lemma snoc_lookup : forall A (l : list A) x n y, nth_error (l ++ [x]) n = Some y ->
+  (n < length l /\ nth_error l n = Some y) \/ (n = length l /\ y = x).
+Proof.
+  intros A l x n y H. rewrite nth_error_snoc in H. destruct (Nat.ltb_spec n (length l)); [left; auto|].
+  destruct (Nat.eqb_spec n (length l)); [|discriminate]. inversion H. right. auto.
+Qed.
+
+Lemma log_of_none : forall h0 o, (forall h k x ok, In (OSendResult h k x ok) o -> h <> h0) -> log_of h0 o = [].
+Proof.
+  intros h0 o H. apply filter_map_none. intros ob Hin. destruct ob; cbn; try reflexivity. destruct ok; [|reflexivity].
+  destruct (Nat.eqb_spec h h0); [|reflexivity]. exfalso. eapply H; eassumption.
+Qed.
+
+Lemma subscribe_admit_inv : forall s o c cn p req,
+  Inv s -> InvO s o -> nth_error (conns s) c = Some cn -> c_permits cn = S p ->
+  let h := length (subs s) in
+  let bnew := mkSub c (id_base s + N.of_nat h)%N req (notif_meth s) SPending [] [] true false false None in
+  let s' := upd_conn (set_subs s (subs s ++ [bnew])) c (c_set_permits p) in
+  Inv s' /\ InvO s' (o ++ [OHandler h c req]) /\ Mono s s'.
+Proof.
+  intros s o c cn p req I IO Hc Hp h bnew s'.
+  assert (Lk : forall c2 cn2', nth_error (upd c (c_set_permits p) (conns s)) c2 = Some cn2' ->
+            exists cn2, nth_error (conns s) c2 = Some cn2 /\ sent cn2' = sent cn2 /\ c_cap cn2' = c_cap cn2 /\ c_open cn2' = c_open cn2 /\
+              ((c2 = c /\ cn2 = cn /\ c_permits cn2' = p) \/ (c2 <> c /\ cn2' = cn2))).
+  { intros c2 cn2' H2. destruct (upd_lookup _ _ _ _ _ _ _ Hc H2) as [[-> ->] | [Ne H2']].
+    - exists cn. repeat split; auto.
+    - exists cn2'. repeat split; auto. }
+  assert (Lo : forall c2 cn2, nth_error (conns s) c2 = Some cn2 ->
+            exists cn2', nth_error (upd c (c_set_permits p) (conns s)) c2 = Some cn2' /\ sent cn2' = sent cn2 /\ c_open cn2' = c_open cn2).
+  { intros c2 cn2 H2. destruct (Nat.eq_dec c2 c) as [->|Ne].
+    - rewrite Hc in H2. inversion H2; subst cn2. exists (c_set_permits p cn). split; [apply nth_error_upd_same; assumption | auto].
+    - exists cn2. rewrite nth_error_upd_other by assumption. auto. }
+  assert (Fresh : forall c2 cn2 f, nth_error (conns s) c2 = Some cn2 -> In f (sent cn2) -> is_notif f = true -> frame_sid f <> s_id bnew).
+  { intros c2 cn2 f H2 Hf Hn E. destruct (inv_frames s I _ _ _ H2 Hf Hn) as [h0 [b0 [H0 [_ [E2 _]]]]].
+    destruct (inv_sub s I _ _ H0) as [E3 _]. cbn in E. rewrite <- E2, E3 in E. apply N.add_cancel_l in E. apply Nat2N.inj in E.
+    assert (h0 < length (subs s)) by (apply nth_error_Some; congruence). subst h. lia. }
+  assert (Old : forall h2 b2, nth_error (subs s) h2 = Some b2 -> nth_error (subs s ++ [bnew]) h2 = Some b2).
+  { intros h2 b2 H2. rewrite nth_error_app1; [assumption | apply nth_error_Some; congruence]. }
+  split; [|split].
+  - constructor; subst s'; unfold upd_conn, set_conns, set_subs; cbn [subs conns table id_base notif_meth].
+    + intros h2 b2 H2. rewrite length_upd. destruct (snoc_lookup _ _ _ _ _ H2) as [[_ H2'] | [-> ->]].
+      * exact (inv_sub s I _ _ H2').
+      * unfold sub_ok, live. cbn. repeat split; auto; try (intros; discriminate); try (intros ? ? []).
+        -- apply nth_error_Some. congruence.
+        -- intros [|]; discriminate.
+    + intro k. rewrite (inv_table s I). split.
+      * intros [h2 [b2 [H2 K2]]]. exists h2, b2. auto.
+      * intros [h2 [b2 [H2 K2]]]. destruct (snoc_lookup _ _ _ _ _ H2) as [[_ H2'] | [-> ->]].
+        -- exists h2, b2. auto.
+        -- discriminate.
+    + intros c2 cn2' H2. destruct (Lk _ _ H2) as [cn2 [H2o [_ [Ec [_ D]]]]].
+      unfold count_on. cbn [subs]. rewrite filter_app, app_length. pose proof (inv_count s I _ _ H2o) as IC. unfold count_on in IC.
+      assert (Hh : holds_on c2 bnew = Nat.eqb c c2) by (unfold holds_on; cbn; apply andb_true_r).
+      rewrite Ec. cbn [filter]. rewrite Hh.
+      destruct D as [[-> [-> Ep]] | [Ne ->]].
+      * rewrite Nat.eqb_refl. cbn. rewrite Ep. lia.
+      * destruct (Nat.eqb_spec c c2); [congruence|]. cbn. lia.
+    + intros c2 cn2' f H2 Hf Hn. destruct (Lk _ _ H2) as [cn2 [H2o [Es _]]]. rewrite Es in Hf.
+      destruct (inv_frames s I _ _ _ H2o Hf Hn) as [h0 [b0 [H0 R]]]. exists h0, b0. split; [apply Old; assumption | assumption].
+    + intros h2 b2 H2 Ha. destruct (snoc_lookup _ _ _ _ _ H2) as [[_ H2'] | [-> ->]].
+      * destruct (inv_accepted s I _ _ H2' Ha) as [cn2 [Hc2 Hin]]. destruct (Lo _ _ Hc2) as [cn2' [Hc2' [Es _]]].
+        exists cn2'. rewrite Es. auto.
+      * destruct Ha; discriminate.
+    + intros c2 cn2' H2. destruct (Lk _ _ H2) as [cn2 [H2o [Es _]]]. rewrite Es. exact (inv_order s I _ _ H2o).
+    + intros h2 b2 cn2' H2 Hc2. destruct (Lk _ _ Hc2) as [cn2 [H2o [Es _]]]. rewrite Es.
+      destruct (snoc_lookup _ _ _ _ _ H2) as [[_ H2'] | [-> ->]].
+      * exact (inv_closing s I _ _ _ H2' H2o).
+      * rewrite count_closing_zero by (intros f Hf Hn; eapply Fresh; eassumption). cbn. split; [lia | intro; lia].
+  - constructor; subst s'; unfold upd_conn, set_conns, set_subs; cbn [subs conns table id_base notif_meth].
+    + intros h2 b2 cn2' H2 Hc2. destruct (Lk _ _ Hc2) as [cn2 [H2o [Es _]]]. rewrite Es, log_of_app. cbn. rewrite app_nil_r.
+      destruct (snoc_lookup _ _ _ _ _ H2) as [[_ H2'] | [-> ->]].
+      * exact (io_fifo s o IO _ _ _ H2' H2o).
+      * rewrite plain_none by (intros f Hf Hn; eapply Fresh; eassumption).
+        symmetry. apply log_of_none. intros h0 k x ok Hin E. apply (io_bound s o IO) in Hin. subst h. lia.
+    + intros h2 k x ok Hin. rewrite app_length. cbn. apply in_app_or in Hin. destruct Hin as [Hin | [Hin | []]]; [|discriminate].
+      apply (io_bound s o IO) in Hin. lia.
+    + intros h2 b2 H2 Ha Hu Hs. destruct (snoc_lookup _ _ _ _ _ H2) as [[_ H2'] | [-> ->]]; [|discriminate].
+      destruct (io_unsub s o IO _ _ H2' Ha Hu Hs) as [r Hr]. exists r. apply in_or_app. auto.
+  - split.
+    + intro c2. subst s'. unfold conn_open, upd_conn, set_conns, set_subs. cbn [conns].
+      destruct (nth_error (upd c (c_set_permits p) (conns s)) c2) as [cn2'|] eqn:H2; [|discriminate].
+      destruct (Lk _ _ H2) as [cn2 [H2o [_ [_ [Eo _]]]]]. rewrite H2o, Eo. auto.
+    + intros h2 b2 H2. exists b2. split; [subst s'; cbn; apply Old; assumption|]. repeat split; auto.
+Qed.
